@@ -26,6 +26,7 @@ package main
 import (
 	"context"
 	"fmt"
+	"os"
 	"sort"
 	"strings"
 	"sync/atomic"
@@ -342,7 +343,17 @@ func runC15(tier string) *vf.Run {
 	}
 	defer box.Close()
 	n := run.Pick(150, 3000)
-	parallel(n, 8, func(i int) { c15Case(run, box, i) })
+	only := map[string]bool{} // replay of single catalogs: VERIF_CASE=0,54
+	for _, s := range strings.Split(os.Getenv("VERIF_CASE"), ",") {
+		if s != "" {
+			only[s] = true
+		}
+	}
+	parallel(n, 8, func(i int) {
+		if len(only) == 0 || only[fmt.Sprint(i)] {
+			c15Case(run, box, i)
+		}
+	})
 
 	// floors at about a third of an unloaded quick run (thorough scales by 20)
 	scale := run.Pick(1, 20)
